@@ -1411,6 +1411,36 @@ func (e *Engine) evalDesignator(st *State, env *cenv, x *CExpr) ([]desig, error)
 				out = append(out, desig{heap: hn, pred: func(a string) string { return "(= (root " + a + ") (root " + t + "))" }})
 			}
 			return out, nil
+		case "under":
+			// under(p): the memory at and (up to three selector steps) below the address p holds - the variable a
+			// pointer or a boxed pointer designates (a scalar, an array or struct of scalars, ...), not the whole
+			// object that contains it
+			v, err := e.evalC(st, env, x.Args[1])
+			if err != nil {
+				return nil, err
+			}
+			t := v.T
+			if v.K == KSlice {
+				t = v.Base
+			}
+			if v.K == KIface {
+				t = "(iaddr " + v.T + ")"
+			}
+			pred := func(a string) string {
+				p := "(path " + a + ")"
+				cs := []string{"(= " + p + " (path " + t + "))"}
+				guard := []string{}
+				for d := 0; d < 3; d++ {
+					guard = append(guard, "(or ((_ is pfld) "+p+") ((_ is pelem) "+p+"))")
+					p = "(ite ((_ is pfld) " + p + ") (pfb " + p + ") (peb " + p + "))"
+					cs = append(cs, sAnd(append(append([]string{}, guard...), "(= "+p+" (path "+t+"))")...))
+				}
+				return sAnd("((_ is ref) "+a+")", "((_ is ref) "+t+")", "(= (root "+a+") (root "+t+"))", sOr(cs...))
+			}
+			for _, hn := range baseHeaps {
+				out = append(out, desig{heap: hn, pred: pred})
+			}
+			return out, nil
 		case "mapof":
 			v, err := e.evalC(st, env, x.Args[1])
 			if err != nil {
